@@ -37,7 +37,10 @@ def run(env, res):
                 'None/0/\'\'/False/[]/{}, 12% with a malformed group body or sequence item, 35% written in another '
                 'yaml layout: flow style, JSON, first step on line 1, other indentation); a case is '
                 'non-trivial when the model accepts it and it terminates; distinct by canonical program text')
-    directed = [('c07', fo.c07_family, env.n(150, 100000)), ('c06', fo.c06_family, env.n(100, 2000)), ('c01-straight', fo.c01_family, env.n(100, 2000))]
+    directed = [('c07', fo.c07_family, env.n(150, 100000)), ('c06', fo.c06_family, env.n(100, 2000)), ('c01-straight', fo.c01_family, env.n(100, 2000)),
+                ('c07-str', fo.c07_str_family, env.n(34, 100000)), ('c03-falsy-call', fo.c03_falsy_call_family, env.n(20, 100000)),
+                ('c06-fault', fo.c06_fault_family, env.n(40, 100000)),
+                ('c01-error-values', fo.c01_error_values_family, env.n(44, 100000))]
     flowcheck.run_streams(env, res, directed, env.n(600, 100000), weights={'fail': 7, 'call': 3},
                           random_monitor=flowcheck.monitor_all)
 
